@@ -18,7 +18,8 @@
        template element.
    NOT PROVED: tokens with other characters in these modes (the cut can fall inside the leading white-space run,
    inside the rest or at the boundary).  Worked-out plan (no file of the invariant chain is needed, but it is a
-   development of its own, estimated at more than a thousand lines):
+   development of its own, estimated at more than a thousand lines; DONE of it: step 0's fuel lemma and the queue
+   decomposition of step 1 in TreeLoop.v, the case "r1 = a" of step 2 in TreeSplitBoundary.v):
      0. The statement has to be conditional: "if the three process_token calls answer Ok, the answers agree and the
         states have the same core and DOM" - the loop fuel of a ++ b, a and b differs and loop termination is open
         (TreeFuel.v).  Needed first: an Ok answer of ptc_loop does not depend on the fuel
